@@ -212,11 +212,14 @@ fn parse_nd_rtr_options(buf: &mut Buffer) -> Result<NDOptions, Error> {
                 use std::convert::{TryFrom as _, TryInto as _};
                 let scaled_lifetime_plc = u16::from_be_bytes(value[0..=1].try_into().unwrap());
                 let lifetime = Duration::from_secs((scaled_lifetime_plc & !7).into());
-                let prefixlen = (scaled_lifetime_plc & 0x07) * 8 + 32;
+                // The receiver MUST ignore the PREF64 option if the prefix length code is not one of
+                // the defined values.  We ignore the entire packet instead...
+                let prefixlen =
+                    pref64_prefixlen(scaled_lifetime_plc & 0x07).ok_or(Error::InvalidPacket)?;
                 let ip_octets =
                     <[u8; 16]>::try_from([&value[2..], &[0, 0, 0, 0]].concat()).unwrap();
                 let prefix = std::net::Ipv6Addr::from(ip_octets);
-                options.add_option(NDOptionValue::Pref64((lifetime, prefixlen as u8, prefix)));
+                options.add_option(NDOptionValue::Pref64((lifetime, prefixlen, prefix)));
             }
             (MTU, value) => {
                 if value.len() != 8 - 2 {
@@ -372,6 +375,60 @@ impl SerialiseInto for &str {
     }
 }
 
+/* An option is at most 255 units of 8 octets long. */
+const DNSSL_MAX_LEN: usize = 255 * 8 - 8;
+const CAPTIVE_PORTAL_MAX_LEN: usize = 255 * 8 - 2;
+
+fn clamp_u16(x: u64) -> u16 {
+    use std::convert::TryFrom as _;
+    u16::try_from(x).unwrap_or(u16::MAX)
+}
+
+fn clamp_u32(x: u128) -> u32 {
+    use std::convert::TryFrom as _;
+    u32::try_from(x).unwrap_or(u32::MAX)
+}
+
+/* The first prefixlen bits set (prefixlen <= 128). */
+fn prefix_mask(prefixlen: u8) -> u128 {
+    u128::MAX
+        .checked_shl(128_u32.saturating_sub(prefixlen.into()))
+        .unwrap_or(0)
+}
+
+/* RFC8781 Section 4: Prefix Length Code */
+const fn pref64_plc(prefixlen: u8) -> Option<u16> {
+    match prefixlen {
+        96 => Some(0),
+        64 => Some(1),
+        56 => Some(2),
+        48 => Some(3),
+        40 => Some(4),
+        32 => Some(5),
+        _ => None,
+    }
+}
+
+const fn pref64_prefixlen(plc: u16) -> Option<u8> {
+    match plc {
+        0 => Some(96),
+        1 => Some(64),
+        2 => Some(56),
+        3 => Some(48),
+        4 => Some(40),
+        5 => Some(32),
+        _ => None,
+    }
+}
+
+/* RFC1035 Section 3.1: labels of 1 to 63 octets, at most 255 octets once encoded. */
+fn dnssl_name_ok(name: &str) -> bool {
+    name.len() <= 253
+        && name
+            .split('.')
+            .all(|label| !label.is_empty() && label.len() <= 63)
+}
+
 fn serialise_router_advertisement(a: &RtrAdvertisement) -> Vec<u8> {
     let mut v: Serialise = Default::default();
     v.serialise(ND_ROUTER_ADVERT.0);
@@ -382,9 +439,10 @@ fn serialise_router_advertisement(a: &RtrAdvertisement) -> Vec<u8> {
         if a.flag_managed { 0x80_u8 } else { 0x00_u8 }
             | if a.flag_other { 0x40_u8 } else { 0x00_u8 },
     );
-    v.serialise(a.lifetime.as_secs() as u16);
-    v.serialise(a.reachable.as_millis() as u32);
-    v.serialise(a.retrans.as_millis() as u32);
+    /* The wire fields are narrower than what the configuration can hold: clamp, never wrap. */
+    v.serialise(clamp_u16(a.lifetime.as_secs()));
+    v.serialise(clamp_u32(a.reachable.as_millis()));
+    v.serialise(clamp_u32(a.retrans.as_millis()));
     for opt in &a.options.0 {
         match opt {
             NDOptionValue::SourceLLAddr(src) => {
@@ -400,66 +458,90 @@ fn serialise_router_advertisement(a: &RtrAdvertisement) -> Vec<u8> {
                 v.serialise(*mtu);
             }
             NDOptionValue::Prefix(prefix) => {
+                let prefixlen = std::cmp::min(prefix.prefixlen, 128);
                 v.serialise(PREFIX_INFO.0);
                 v.serialise(4_u8);
-                v.serialise(prefix.prefixlen);
+                v.serialise(prefixlen);
                 v.serialise(
                     if prefix.onlink { 0x80_u8 } else { 0x00_u8 }
                         | if prefix.autonomous { 0x40_u8 } else { 0x00_u8 },
                 );
-                v.serialise(prefix.valid.as_secs() as u32);
-                v.serialise(prefix.preferred.as_secs() as u32);
+                v.serialise(clamp_u32(prefix.valid.as_secs().into()));
+                v.serialise(clamp_u32(prefix.preferred.as_secs().into()));
                 v.serialise(0_u32);
-                v.serialise(&prefix.prefix);
+                /* The bits after the prefix length are reserved and sent as zero. */
+                v.serialise(&std::net::Ipv6Addr::from(
+                    u128::from(prefix.prefix) & prefix_mask(prefixlen),
+                ));
             }
             NDOptionValue::RecursiveDnsServers((lifetime, servers)) => {
-                use std::convert::TryFrom as _;
-                v.serialise(RDNSS.0);
-                v.serialise(u8::try_from(1 + servers.len() * 2).unwrap());
-                v.serialise(0_u16); // Reserved / Padding.
-                v.serialise(lifetime.as_secs() as u32);
-                for server in servers {
-                    v.serialise(server);
+                /* One option holds at most 127 addresses (and at least one): use as many options as needed. */
+                for chunk in servers.chunks(127) {
+                    v.serialise(RDNSS.0);
+                    v.serialise((1 + chunk.len() * 2) as u8);
+                    v.serialise(0_u16); // Reserved / Padding.
+                    v.serialise(clamp_u32(lifetime.as_secs().into()));
+                    for server in chunk {
+                        v.serialise(server);
+                    }
                 }
             }
             NDOptionValue::DnsSearchList((lifetime, suffixes)) => {
                 let mut dnssl = Serialise::default();
                 for suffix in suffixes {
-                    for label in suffix.split('.') {
-                        dnssl.serialise(label.len() as u8);
-                        dnssl.serialise(label);
+                    let name = suffix.strip_suffix('.').unwrap_or(suffix);
+                    /* A name that cannot be encoded (RFC1035 3.1), or that no longer fits into the
+                     * option, is left out.
+                     */
+                    if dnssl_name_ok(name) && dnssl.len() + name.len() + 2 <= DNSSL_MAX_LEN {
+                        for label in name.split('.') {
+                            dnssl.serialise(label.len() as u8);
+                            dnssl.serialise(label);
+                        }
+                        dnssl.serialise(0_u8);
                     }
-                    dnssl.serialise(0_u8);
                 }
-                // Pad with 0x00 to the full size.
-                while dnssl.v.len() % 8 != 0 {
-                    dnssl.serialise(0_u8);
+                /* The option carries at least one name. */
+                if dnssl.len() > 0 {
+                    // Pad with 0x00 to the full size.
+                    while dnssl.v.len() % 8 != 0 {
+                        dnssl.serialise(0_u8);
+                    }
+                    v.serialise(DNSSL.0);
+                    v.serialise((1 + dnssl.v.len() / 8) as u8);
+                    v.serialise(0_u16); // Reserved / Padding.
+                    v.serialise(clamp_u32(lifetime.as_secs().into()));
+                    v.serialise(&dnssl.v);
                 }
-                v.serialise(DNSSL.0);
-                v.serialise(1 + (dnssl.v.len() / 8) as u8);
-                v.serialise(0_u16); // Reserved / Padding.
-                v.serialise(lifetime.as_secs() as u32);
-                v.serialise(&dnssl.v);
             }
             NDOptionValue::Pref64((lifetime, prefixlen, prefix)) => {
-                v.serialise(PREF64.0);
-                v.serialise(2_u8);
-                let scaled_lifetime = (lifetime.as_secs() / 8) as u16;
-                let plc = ((prefixlen - 32) / 8) as u16;
-                v.serialise((scaled_lifetime << 3) | plc);
-                for i in 0..12 {
-                    v.serialise(prefix.octets()[i])
+                /* Only the six prefix lengths of RFC8781 can be expressed; anything else is left out. */
+                if let Some(plc) = pref64_plc(*prefixlen) {
+                    v.serialise(PREF64.0);
+                    v.serialise(2_u8);
+                    /* 13 bits, in units of 8 seconds. */
+                    let scaled_lifetime = std::cmp::min(lifetime.as_secs() / 8, 0x1fff) as u16;
+                    v.serialise((scaled_lifetime << 3) | plc);
+                    let octets =
+                        std::net::Ipv6Addr::from(u128::from(*prefix) & prefix_mask(*prefixlen))
+                            .octets();
+                    for i in 0..12 {
+                        v.serialise(octets[i])
+                    }
                 }
             }
             NDOptionValue::CaptivePortal(url) => {
                 let mut b = url.clone().into_bytes();
-                // Pad with 0x00
-                while (b.len() + 2) % 8 != 0 {
-                    b.push(0x00_u8);
+                /* A URL that does not fit into one option cannot be sent. */
+                if b.len() <= CAPTIVE_PORTAL_MAX_LEN {
+                    // Pad with 0x00
+                    while (b.len() + 2) % 8 != 0 {
+                        b.push(0x00_u8);
+                    }
+                    v.serialise(CAPTIVE_PORTAL.0);
+                    v.serialise((1 + b.len() / 8) as u8);
+                    v.serialise(&b);
                 }
-                v.serialise(CAPTIVE_PORTAL.0);
-                v.serialise((1 + b.len() / 8) as u8);
-                v.serialise(&b);
             }
         }
     }
